@@ -634,7 +634,8 @@ impl Transaction {
                 }
                 slip.amount
             })
-            .sum::<Currency>();
+            // saturating: a wrapped sum would make an over-spending transaction look balanced
+            .fold(0 as Currency, |sum, amount| sum.saturating_add(amount));
 
         let nolan_out = self
             .to
@@ -653,7 +654,7 @@ impl Transaction {
                 }
                 slip.amount
             })
-            .sum::<Currency>();
+            .fold(0 as Currency, |sum, amount| sum.saturating_add(amount));
 
         self.total_in = nolan_in;
         self.total_out = nolan_out;
